@@ -169,7 +169,8 @@ class Controller(object):
         cid, msg = job
         try:
             json_msg = json.loads(msg)
-        except ValueError:
+        except (ValueError, RecursionError):
+            # (nesting beyond the parser's recursion limit is no ValueError)
             return self.send_error(None, cid, msg, "json invalid",
                                    errno=errors.INVALID_JSON)
 
